@@ -275,8 +275,8 @@ def PlaceSafe (i : Inp) (o : Out) : Prop :=
       IsSlot o.insert[k]? → o.insert[k]? ≠ o.insert[l]?) ∧
   -- … and distinct from every re-used slot
   (∀ v, v ∈ o.insert → 0 ≤ v → v ∉ o.w2s) ∧
-  -- the appended segments (16 points of overhead each) fit behind the last used slot
-  (∃ F, F ≤ i.caps.length ∧ BehindUsed i o F ∧
+  -- if anything is appended: the appended segments (16 points of overhead each) fit behind the last used slot
+  (true ∈ o.amend → ∃ F, F ≤ i.caps.length ∧ BehindUsed i o F ∧
       sizeWithOverhead i.newLens o.amend + sumNat (i.caps.take F) ≤ i.total)
 
 instance (i : Inp) (o : Out) (k : Nat) : Decidable (IsKnown i o k) := by
